@@ -186,14 +186,7 @@ def lemma_reversal(reg, repo):
 
 
 # ---- get_path: the per-contig segment lists handed to search_intervals are sorted by SO (boundary precondition of C01/C03) ---------
-_C2N = DictT(STR, ListT(STR))
-
-
-def _empty_list_default(eng):
-    return Val(ListT(STR).empty(), ListT(STR))
-
-
-_C2N.default = _empty_list_default
+_C2N = C2N
 GFAPath = ObjT("GFA", nodes=DictT(STR, Node), contig_to_nodes=_C2N)
 GFAPath.name = "Obj<GFAPathView>"
 
@@ -212,4 +205,297 @@ def register_get_path(reg):
                                                           "forall(lambda i: implies(0 <= i < len(segs()), 0 <= sort_perm[i] < len(result) and result[sort_perm[i]] == segs()[i])))",
             "empty-or-all-segments": "len(result) == 0 or len(result) == len(segs())",
         },
+    ))
+
+
+# ---- extract_path (C14): spelling of a walk ------------------------------------------------------------------------------------------
+UTILS = "gaftools/utils.py"
+EP_M = {
+    # NB: the local name `path` is re-bound to the list of steps inside the function; old(path) is the path string that was passed in
+    "steps": "lambda: steps_of(old(path))",
+    "walk": "lambda: forall(lambda j: implies(1 <= j < len(steps_of(old(path))), step_ok(self, steps_of(old(path)), j)))",
+    "step_ok": STEP_OK,
+    "piece": "lambda k: ite(str_head(steps_of(old(path))[k]) == '>', self.nodes[str_tail(steps_of(old(path))[k])].seq, revcomp(self.nodes[str_tail(steps_of(old(path))[k])].seq))",
+}
+
+
+def register_extract_path(reg):
+    reg.add(Contract(file=UTILS, func="rev_comp", params=dict(seq=STR), returns=STR, trusted=True, ufuns={"revcomp": ([STR], STR)},
+                     ensures={"def": "result == revcomp(seq)"}, notes="seq[::-1].translate(complement): reverse complement as an uninterpreted function of the sequence"))
+    reg.add(Contract(
+        file=GFA, func="GFA.extract_path", params=dict(self=GFAT, path=STR), returns=STR, types=dict(STR=STR, INT=INT),
+        ufuns=dict(STR_UF, steps_of=([STR], LINE), revcomp=([STR], STR)), spec_funcs=EP_M, locals=dict(seq=LINE),
+        requires=[
+            # the steps are oriented node names over the nodes of the graph (the property's quantifier)
+            "forall(lambda j: implies(0 <= j < len(steps_of(path)), (str_head(steps_of(path)[j]) == '>' or str_head(steps_of(path)[j]) == '<') "
+            "and str_tail(steps_of(path)[j]) in self.nodes))",
+        ],
+        loops={1: Loop(index="it1", fingerprint="for n in path", invariant={
+            "one-piece-per-step": "len(seq) == it1",
+            "pieces": "forall(lambda k: implies(0 <= k < it1, seq[k] == piece(k)))",
+        })},
+        ensures={
+            "empty-unless-a-walk": "implies(not walk(), result == '')",
+            "a-walk-is-spelled-step-by-step": "implies(walk() and (str_head(old(path)) == '<' or str_head(old(path)) == '>'), len(untok(result)) == len(steps()) and "
+                                              "forall(lambda k: implies(0 <= k < len(steps()), untok(result)[k] == piece(k))))",
+        },
+    ))
+
+
+# ---- find_component (C15): the set returned is closed under adjacency, contains the start node, avoids earlier components, and is sound ----
+ADJN = "lambda g, a, b: exists(lambda s, ov: (b, s, ov) in g.nodes[a].start or (b, s, ov) in g.nodes[a].end)"
+FC_M = {
+    "adj": ADJN,
+    "V": "lambda x: self.nodes[x].visited",
+    "V0": "lambda x: old(self).nodes[x].visited",
+    "queued": "lambda y: 0 <= qidx[y] < len(queue) and queue[qidx[y]] == y",
+}
+GRAPH_FRAME = ("forall(STR, lambda x: (x in self.nodes) == (x in old(self).nodes)) and forall(STR, lambda x: implies(x in self.nodes, "
+               "self.nodes[x].start == old(self).nodes[x].start and self.nodes[x].end == old(self).nodes[x].end))")
+
+
+def register_components(reg):
+    reg.add(Contract(
+        file=GFA, func="Node.neighbors", params=dict(self=Node), returns=ListT(STR), trusted=True, ufuns={"nbrpos": ([Node, STR], INT)}, types=dict(STR=STR, INT=INT),
+        ensures={"only-neighbours": "forall(lambda i: implies(0 <= i < len(result), exists(lambda s, ov: (result[i], s, ov) in self.start or (result[i], s, ov) in self.end)))",
+                 "all-neighbours": "forall([STR, INT, INT], lambda b, s, ov: implies((b, s, ov) in self.start or (b, s, ov) in self.end, "
+                                   "0 <= nbrpos(self, b) < len(result) and result[nbrpos(self, b)] == b))"},
+        notes="caller view of neighbors(): the ids on either side, each at some position (sorted(); duplicates possible)",
+    ))
+    reg.add(Contract(
+        file=GFA, func="GFA.find_component", params=dict(self=GFAT, start_node=STR), returns=SetT(STR), modifies=["self"],
+        types=dict(STR=STR, INT=INT), ufuns={"R": ([STR, STR], BOOL), "nbrpos": ([Node, STR], INT)}, spec_funcs=FC_M,
+        ghost=dict(qidx=MapT(STR, INT)),
+        ghost_at={"after:queue.append(start_node)": "qidx[start_node] = len(queue) - 1", "after:queue.append(n)": "qidx[n] = len(queue) - 1"},
+        locals=dict(queue=ListT(STR), cc=SetT(STR), neighbors=ListT(STR)),
+        requires=[
+            "start_node in self.nodes and not self.nodes[start_node].visited",
+            # adjacency invariant of C15 (symmetric, no dangling ids), in the form needed here
+            "forall([STR, STR], lambda a, b: implies(a in self.nodes and adj(self, a, b), b in self.nodes and adj(self, b, a)))",
+            # what all_components maintains: the nodes visited so far are closed under adjacency
+            "forall([STR, STR], lambda a, b: implies(a in self.nodes and self.nodes[a].visited and adj(self, a, b), self.nodes[b].visited))",
+            # R: ANY equivalence relation that contains the links (soundness is proved for every such relation, hence for connectivity)
+            "forall(STR, lambda a: R(a, a)) and forall([STR, STR], lambda a, b: implies(R(a, b), R(b, a))) and "
+            "forall([STR, STR, STR], lambda a, b, c: implies(R(a, b) and R(b, c), R(a, c)))",
+            "forall([STR, STR, INT, INT], lambda a, b, s, ov: implies(a in self.nodes and (b, s, ov) in self.nodes[a].start, R(a, b)))",
+            "forall([STR, STR, INT, INT], lambda a, b, s, ov: implies(a in self.nodes and (b, s, ov) in self.nodes[a].end, R(a, b)))",
+        ],
+        loops={
+            1: Loop(fingerprint="while len(queue) > 0", invariant={
+                "graph-unchanged": GRAPH_FRAME,
+                "members": "forall(STR, lambda x: implies(x in cc, x in self.nodes and V(x) and not V0(x) and R(start_node, x)))",
+                "queue-entries": "forall(lambda i: implies(0 <= i < len(queue), queue[i] in self.nodes and not V0(queue[i]) and R(start_node, queue[i])))",
+                "visited-is-old-plus-component": "forall(STR, lambda x: implies(x in self.nodes, V(x) == (V0(x) or x in cc or x == start_node)))",
+                "closed-or-queued": "forall([STR, STR], lambda x, y: implies(x in cc and adj(self, x, y), y in cc or queued(y)))",
+                "start-in-or-queued": "start_node in cc or queued(start_node)",
+            }),
+            2: Loop(index="it2", fingerprint="for n in neighbors", invariant={
+                "graph-unchanged": GRAPH_FRAME,
+                "members": "forall(STR, lambda x: implies(x in cc, x in self.nodes and V(x) and not V0(x) and R(start_node, x)))",
+                "queue-entries": "forall(lambda i: implies(0 <= i < len(queue), queue[i] in self.nodes and not V0(queue[i]) and R(start_node, queue[i])))",
+                "visited-is-old-plus-component": "forall(STR, lambda x: implies(x in self.nodes, V(x) == (V0(x) or x in cc or x == start_node)))",
+                "closed-or-queued-others": "forall([STR, STR], lambda x, y: implies(x in cc and x != start and adj(self, x, y), y in cc or queued(y)))",
+                "this-node-so-far": "start in cc and forall(lambda t: implies(0 <= t < it2, neighbors[t] in cc or queued(neighbors[t])))",
+                "start-in-or-queued": "start_node in cc or queued(start_node)",
+            }),
+        },
+        assert_at={"after:neighbors = self.nodes[start].neighbors()": {
+            "adjacency-as-at-entry": "forall([STR, STR], lambda a, b: implies(a in self.nodes, adj(self, a, b) == adj(old(self), a, b)))",
+            "this-node-known": "start in self.nodes and start in old(self).nodes and R(start_node, start)",
+            "neighbours-are-adjacent": "forall(lambda t: implies(0 <= t < len(neighbors), adj(self, start, neighbors[t])))",
+            "neighbours-are-nodes": "forall(lambda t: implies(0 <= t < len(neighbors), neighbors[t] in self.nodes))",
+            "neighbours-are-related": "forall(lambda t: implies(0 <= t < len(neighbors), R(start_node, neighbors[t])))",
+            "every-adjacent-node-is-listed": "forall(STR, lambda y: implies(adj(self, start, y), 0 <= nbrpos(self.nodes[start], y) < len(neighbors) and neighbors[nbrpos(self.nodes[start], y)] == y))",
+        }},
+        ensures={
+            "contains-the-start-node": "start_node in result",
+            "closed-under-adjacency": "forall([STR, STR], lambda x, y: implies(x in result and adj(self, x, y), y in result))",
+            "disjoint-from-earlier-components": "forall(STR, lambda x: implies(x in result, x in self.nodes and not V0(x)))",
+            "sound-for-every-link-closed-equivalence": "forall(STR, lambda x: implies(x in result, R(start_node, x)))",
+            "visited-is-old-plus-component": "forall(STR, lambda x: implies(x in self.nodes, V(x) == (V0(x) or x in result)))",
+            "graph-unchanged": GRAPH_FRAME,
+        },
+    ))
+
+
+AC_M = {
+    "adj": ADJN,
+    "V": "lambda x: self.nodes[x].visited",
+}
+R_REQ = [
+    "forall(STR, lambda a: R(a, a)) and forall([STR, STR], lambda a, b: implies(R(a, b), R(b, a))) and "
+    "forall([STR, STR, STR], lambda a, b, c: implies(R(a, b) and R(b, c), R(a, c)))",
+    "forall([STR, STR, INT, INT], lambda a, b, s, ov: implies(a in self.nodes and (b, s, ov) in self.nodes[a].start, R(a, b)))",
+    "forall([STR, STR, INT, INT], lambda a, b, s, ov: implies(a in self.nodes and (b, s, ov) in self.nodes[a].end, R(a, b)))",
+]
+
+
+def register_all_components(reg):
+    reg.add(Contract(file=GFA, func="GFA.set_visited", params=dict(self=GFAT, visited=BOOL), modifies=["self"], trusted=True, types=dict(STR=STR),
+                     ensures={"flags-set": "forall(STR, lambda x: implies(x in self.nodes, self.nodes[x].visited == visited))", "graph-unchanged": GRAPH_FRAME},
+                     notes="caller view: sets every node's visited flag (the body mutates the nodes through the dict's values view: aliasing, not modelled)"))
+    reg.add(Contract(
+        file=GFA, func="GFA.all_components", params=dict(self=GFAT), returns=ListT(SetT(STR)), modifies=["self"],
+        types=dict(STR=STR, INT=INT), ufuns={"R": ([STR, STR], BOOL)}, spec_funcs=AC_M,
+        ghost=dict(rep=MapT(INT, STR), comp_of=MapT(STR, INT)), locals=dict(connected_comp=ListT(SetT(STR))),
+        requires=[
+            "forall(STR, lambda x: implies(x in self.nodes, not self.nodes[x].visited))",
+            "forall([STR, STR], lambda a, b: implies(a in self.nodes and adj(self, a, b), b in self.nodes and adj(self, b, a)))",
+        ] + R_REQ,
+        loops={1: Loop(index="it1", seq_name="keyseq", fingerprint="for n in self.nodes", invariant={
+            "graph-unchanged": GRAPH_FRAME,
+            "visited-closed": "forall([STR, STR], lambda a, b: implies(a in self.nodes and V(a) and adj(self, a, b), V(b)))",
+            "keys-so-far-visited": "forall(lambda t: implies(0 <= t < it1, V(keyseq[t])))",
+            "components-closed": "forall([INT, STR, STR], lambda c, x, y: implies(0 <= c < len(connected_comp) and x in connected_comp[c] and adj(self, x, y), y in connected_comp[c]))",
+            "components-of-visited-nodes": "forall([INT, STR], lambda c, x: implies(0 <= c < len(connected_comp) and x in connected_comp[c], x in self.nodes and V(x) and comp_of[x] == c))",
+            "visited-nodes-are-covered": "forall(STR, lambda x: implies(x in self.nodes and V(x), 0 <= comp_of[x] < len(connected_comp) and x in connected_comp[comp_of[x]]))",
+            "components-sound": "forall([INT, STR], lambda c, x: implies(0 <= c < len(connected_comp) and x in connected_comp[c], R(rep[c], x) and rep[c] in connected_comp[c]))",
+        })},
+        ghost_at={"after:connected_comp.append(": "rep[len(connected_comp) - 1] = n\ncomp_of = assign_members(comp_of, connected_comp[len(connected_comp) - 1], len(connected_comp) - 1)"},
+        ensures={
+            "cover": "forall(STR, lambda x: implies(x in self.nodes, 0 <= comp_of[x] < len(result) and x in result[comp_of[x]]))",
+            "pairwise-disjoint": "forall([INT, INT, STR], lambda c, d, x: implies(0 <= c < len(result) and 0 <= d < len(result) and x in result[c] and x in result[d], c == d))",
+            "each-closed-under-adjacency": "forall([INT, STR, STR], lambda c, x, y: implies(0 <= c < len(result) and x in result[c] and adj(self, x, y), y in result[c]))",
+            "each-within-one-class-of-every-link-closed-equivalence": "forall([INT, STR, STR], lambda c, x, y: implies(0 <= c < len(result) and x in result[c] and y in result[c], R(x, y)))",
+            "only-nodes": "forall([INT, STR], lambda c, x: implies(0 <= c < len(result) and x in result[c], x in self.nodes))",
+            "flags-reset": "forall(STR, lambda x: implies(x in self.nodes, not self.nodes[x].visited))",
+            "graph-unchanged": GRAPH_FRAME,
+        },
+    ))
+
+
+DFS_M = {
+    "adj": ADJN,
+    "stacked": "lambda y: 0 <= sidx[y] < len(stack) and stack[sidx[y]] == y",
+}
+DFS_INV = {
+    "set-and-list-agree": "forall(STR, lambda x: (x in dfs_out) == (0 <= opos[x] < len(ordered_dfs_out) and ordered_dfs_out[opos[x]] == x))",
+    "each-listed-once": "forall(lambda i: implies(0 <= i < len(ordered_dfs_out), opos[ordered_dfs_out[i]] == i))",
+    "members": "forall(STR, lambda x: implies(x in dfs_out, x in self.nodes and R(start_node, x)))",
+    "stack-entries": "forall(lambda i: implies(0 <= i < len(stack), stack[i] in self.nodes and R(start_node, stack[i])))",
+    "start-in-or-stacked": "start_node in dfs_out or stacked(start_node)",
+    "first-is-the-start-node": "implies(len(ordered_dfs_out) == 0, len(stack) == 1 and stack[0] == start_node) and implies(len(ordered_dfs_out) > 0, ordered_dfs_out[0] == start_node)",
+}
+
+
+def register_dfs(reg):
+    reg.add(Contract(
+        file=GFA, func="GFA.dfs", params=dict(self=GFAT, start_node=STR), returns=ListT(STR), pure=True,
+        types=dict(STR=STR, INT=INT), ufuns={"R": ([STR, STR], BOOL), "nbrpos": ([Node, STR], INT)}, spec_funcs=DFS_M,
+        ghost=dict(sidx=MapT(STR, INT), opos=MapT(STR, INT)),
+        ghost_at={"after:stack = [start_node]": "sidx[start_node] = 0", "after:stack.append(neighbour)": "sidx[neighbour] = len(stack) - 1",
+                  "after:ordered_dfs_out.append(s)": "opos[s] = len(ordered_dfs_out) - 1"},
+        locals=dict(stack=ListT(STR), dfs_out=SetT(STR), ordered_dfs_out=ListT(STR)),
+        requires=["forall([STR, STR], lambda a, b: implies(a in self.nodes and adj(self, a, b), b in self.nodes and adj(self, b, a)))"] + R_REQ,
+        loops={
+            1: Loop(fingerprint="while stack", invariant=dict(DFS_INV, **{
+                "closed-or-stacked": "forall([STR, STR], lambda x, y: implies(x in dfs_out and adj(self, x, y), y in dfs_out or stacked(y)))"})),
+            2: Loop(index="it2", seq_name="nbrs", fingerprint="for neighbour in self[s].neighbors()", invariant=dict(DFS_INV, **{
+                "closed-or-stacked-others": "forall([STR, STR], lambda x, y: implies(x in dfs_out and x != s and adj(self, x, y), y in dfs_out or stacked(y)))",
+                "this-node-so-far": "s in dfs_out and forall(lambda t: implies(0 <= t < it2, nbrs[t] in dfs_out or stacked(nbrs[t])))",
+                "neighbours-are-adjacent": "forall(lambda t: implies(0 <= t < len(nbrs), adj(self, s, nbrs[t]) and nbrs[t] in self.nodes and R(start_node, nbrs[t])))",
+                "every-adjacent-node-is-listed": "forall(STR, lambda y: implies(adj(self, s, y), 0 <= nbrpos(self.nodes[s], y) < len(nbrs) and nbrs[nbrpos(self.nodes[s], y)] == y))",
+            })),
+        },
+        ensures={
+            "empty-iff-unknown-start": "(len(result) == 0) == (start_node not in self.nodes)",
+            "starts-at-the-start-node": "implies(start_node in self.nodes, result[0] == start_node)",
+            "each-node-exactly-once": "forall(lambda i, j: implies(0 <= i < j < len(result), result[i] != result[j]))",
+            "closed-under-adjacency": "forall([INT, STR], lambda i, y: implies(0 <= i < len(result) and adj(self, result[i], y), exists(lambda j: 0 <= j < len(result) and result[j] == y)))",
+            "only-nodes-of-the-component": "forall(lambda i: implies(0 <= i < len(result), result[i] in self.nodes and R(start_node, result[i])))",
+        },
+    ))
+
+
+def _wfd(g, tag):
+    return {k + tag: v for k, v in list(wf_sym(g).items()) + list(wf_closed(g).items())}
+
+
+def register_remove_node(reg):
+    Q4 = "forall([STR, STR, INT, INT], lambda a, b, sb, ov: implies(a in self.nodes, "
+    NODESET = "forall(STR, lambda a: (a in self.nodes) == (a in old(self).nodes))"
+    inv1 = {
+        "same-node-set": NODESET,
+        "start-sides-so-far": Q4 + "((b, sb, ov) in self.nodes[a].start) == ((b, sb, ov) in old(self).nodes[a].start and "
+                              "not (a == n_id and spos[(b, sb, ov)] < t1) and not (b == n_id and sb == 0 and spos[(a, 0, ov)] < t1))))",
+        "end-sides-so-far": Q4 + "((b, sb, ov) in self.nodes[a].end) == ((b, sb, ov) in old(self).nodes[a].end and "
+                            "not (b == n_id and sb == 0 and spos[(a, 1, ov)] < t1))))",
+    }
+    inv1.update(_wfd("self", ""))
+    inv2 = {
+        "same-node-set": NODESET,
+        "start-sides-so-far": Q4 + "((b, sb, ov) in self.nodes[a].start) == ((b, sb, ov) in mid.nodes[a].start and "
+                              "not (b == n_id and sb == 1 and epos[(a, 0, ov)] < t2))))",
+        "end-sides-so-far": Q4 + "((b, sb, ov) in self.nodes[a].end) == ((b, sb, ov) in mid.nodes[a].end and "
+                            "not (a == n_id and epos[(b, sb, ov)] < t2) and not (b == n_id and sb == 1 and epos[(a, 1, ov)] < t2))))",
+    }
+    inv2.update(_wfd("self", ""))
+    reg.add(Contract(
+        file=GFA, func="GFA.remove_node", params=dict(self=GFAT, n_id=STR), modifies=["self"], types=dict(STR=STR, INT=INT),
+        ghost=dict(spos=MapT(Edge, INT), epos=MapT(Edge, INT), mid=GFAT),
+        locals=dict(starts=ListT(Edge), ends=ListT(Edge)),
+        alias_ok=["contig_nodes"],
+        ghost_at={"after:starts = [": "spos = last_keypos()", "after:ends = [": "epos = last_keypos()\nmid = self"},
+        requires=["n_id in self.nodes"] + wf("self"),
+        loops={
+            1: Loop(index="t1", fingerprint="for n_start in starts", invariant=inv1),
+            2: Loop(index="t2", fingerprint="for n_end in ends", invariant=inv2),
+        },
+        assert_at={
+            "after:ends = [": {
+                "mid-node-set": "forall(STR, lambda a: (a in mid.nodes) == (a in old(self).nodes))",
+                "mid-start-sides": "forall([STR, STR, INT, INT], lambda a, b, sb, ov: implies(a in mid.nodes, ((b, sb, ov) in mid.nodes[a].start) == "
+                                   "((b, sb, ov) in old(self).nodes[a].start and a != n_id and not (b == n_id and sb == 0))))",
+                "mid-end-sides": "forall([STR, STR, INT, INT], lambda a, b, sb, ov: implies(a in mid.nodes, ((b, sb, ov) in mid.nodes[a].end) == "
+                                 "((b, sb, ov) in old(self).nodes[a].end and not (b == n_id and sb == 0))))",
+            },
+        },
+        ensures=dict([
+            ("exactly-this-node-removed", "forall(STR, lambda a: (a in self.nodes) == (a in old(self).nodes and a != n_id))"),
+            ("start-sides-lose-exactly-the-links-to-it", Q4 + "((b, sb, ov) in self.nodes[a].start) == ((b, sb, ov) in old(self).nodes[a].start and b != n_id)))"),
+            ("end-sides-lose-exactly-the-links-to-it", Q4 + "((b, sb, ov) in self.nodes[a].end) == ((b, sb, ov) in old(self).nodes[a].end and b != n_id)))"),
+        ] + [(k, dict(expr=v, **{"from": ["exactly-this-node-removed", "start-sides-lose-exactly-the-links-to-it", "end-sides-lose-exactly-the-links-to-it"]}))
+             for k, v in _wfd("self", "").items()]),
+        notes="contig_to_nodes clean-up (list bound from the dict, mutated in place) is not modelled: alias_ok, nothing is claimed about contig_to_nodes",
+    ))
+
+
+def node_init_lemma(reg, repo):
+    """the constructor model used for `Node(node_id)` (types.Node.ctor / Node.defaults) is Node.__init__ of the working tree"""
+    import ast, os
+    src = open(os.path.join(repo, GFA)).read()
+    got = None
+    for n in ast.parse(src).body:
+        if isinstance(n, ast.ClassDef) and n.name == "Node":
+            for f in n.body:
+                if isinstance(f, ast.FunctionDef) and f.name == "__init__":
+                    got = [ast.unparse(s) for s in f.body if not (isinstance(s, ast.Expr) and isinstance(s.value, ast.Constant))]
+                    args = [a.arg for a in f.args.args]
+    want = ["self.id = identifier", "self.seq = ''", "self.seq_len = 0", "self.start = set()", "self.end = set()", "self.visited = False", "self.tags = dict()"]
+    o = Oblig("gaftools.gfa:lemma::Node.__init__-as-modelled", "lemma", [], z3.BoolVal(got == want and args == ["self", "identifier"]))
+    o.inputs = []
+    return [o]
+
+
+def register_add_node(reg):
+    from pyvc.ty import OptT
+    UT = "gaftools/utils.py"
+    reg.add(Contract(file=UT, func="is_correct_tag", params=dict(tag=STR), returns=BOOL, trusted=True, ufuns={"split_colon_2": ([STR], LINE)},
+                     ensures={"three-parts": "implies(result, len(split_colon_2(tag)) == 3)"},
+                     notes="caller view: an accepted tag has the form NAME:TYPE:VALUE (tag_regex), so split(':', 2) yields three parts; the regular expressions themselves are the subject of C16"))
+    SAMEADJ = "forall(STR, lambda a: implies(a in old(self).nodes, a in self.nodes and self.nodes[a].start == old(self).nodes[a].start and self.nodes[a].end == old(self).nodes[a].end))"
+    NODESET = "forall(STR, lambda a: (a in self.nodes) == (a in old(self).nodes or a == old(node_id)))"
+    FRESH = "implies(old(node_id) not in old(self).nodes, forall([STR, INT, INT], lambda b, s, ov: (b, s, ov) not in self.nodes[old(node_id)].start and (b, s, ov) not in self.nodes[old(node_id)].end))"
+    frame = {"node-set": NODESET, "existing-adjacency-untouched": SAMEADJ, "new-node-has-no-links": FRESH}
+    reg.add(Contract(
+        file=GFA, func="GFA.add_node", params=dict(self=GFAT, node_id=STR, seq=STR, tags=OptT(ListT(STR))), modifies=["self"],
+        types=dict(STR=STR, INT=INT, Node=Node), ufuns={"split_colon_2": ([STR], LINE)},
+        raises={"ValueError": "*", "AssertionError": "*"}, locals=dict(tags=ListT(STR)),
+        requires=wf("self"),
+        loops={1: Loop(index="it1", fingerprint="for tag in tags", invariant=dict(frame, **{"still-a-node": "node_id in self.nodes and node_id == old(node_id)"}))},
+        ensures=dict(list(frame.items()) + [
+            ("nothing-changes-when-the-id-exists", "implies(old(node_id) in old(self).nodes, same(self.nodes, old(self).nodes))")] + [
+            (k, dict(expr=v, **{"from": ["node-set", "existing-adjacency-untouched", "new-node-has-no-links"]})) for k, v in _wfd("self", "").items()]),
+        exc_ensures={"ValueError": dict(frame), "AssertionError": dict(frame)},
+        notes="GFA.__setitem__'s isinstance(value, Node) test is not modelled (the value is the Node just built); logging is dropped",
     ))
